@@ -25,10 +25,11 @@ open LuaHelper.Diag
 
 /-- the handler sequences the model's `ev*` functions are written after, as they stand in /repo now
     (regenerated on every run): which bookkeeping methods each document / file handler calls, in order.
-    didClose restores the saved diagnostics with SaveOneFilePushAgain (repair aa13bc7). -/
+    didClose restores the saved diagnostics with SaveOneFilePushAgain (repair aa13bc7); didOpen treats a text
+    that differs from the file like an unsaved edit (repair ce0b3a3, `evOpenWith`). -/
 theorem handler_call_shape :
     Gen.bookkeepingCalls =
-      [("TextDocumentDidOpen", ["pushAllDiagnosticsAgain", "ClearChangeFileErr"]),
+      [("TextDocumentDidOpen", ["pushAllDiagnosticsAgain", "InsertChangeFileErr", "ClearFileSyntaxErr", "ClearChangeFileErr"]),
        ("TextDocumentDidChange", ["InsertChangeFileErr", "ClearChangeFileErr", "ClearFileSyntaxErr"]),
        ("WorkspaceChangeWatchedFiles", ["ClearChangeFileErr", "pushAllDiagnosticsAgain"]),
        ("TextDocumentDidClose", ["SaveOneFilePushAgain", "ClearOneFileDiagnostic", "RemoveFile"]),
@@ -455,6 +456,30 @@ theorem change_without_errors (s : St) (f : File) (hs : Settled s) :
     have : (g == f) = false := by simpa using hg
     simp [publish_client, this]
 #print axioms change_without_errors
+
+theorem clearSyntax_change (s : St) (f : File) : (clearSyntax s f).change = s.change := by
+  unfold clearSyntax
+  cases lk s.saved f with
+  | none => rfl
+  | some e => simp [pushFile, publish]; split <;> rfl
+
+/-- didOpen with a text that differs from the file (from a settled state) is didOpen followed by the edit
+    that turns the file's text into the opened one: what the client is shown is covered by
+    `change_with_errors` / `change_without_errors` -/
+theorem open_edited (s : St) (f : File) (new : EMap) (errs : List Err) (hs : Settled s) (hn : NodupKeys new)
+    (hf : Faithful s.saved new) :
+    evOpenWith s f new (some errs) = evChange (evOpen s f new) f errs := by
+  obtain ⟨h1, _⟩ := pushAll_settled s new hs hn hf
+  unfold evOpenWith evOpen evChange
+  simp only
+  rw [clearChange_noop (pushAll s new) f h1.1]
+  by_cases he : errs.isEmpty = true
+  · simp only [he, if_true]
+    rw [clearChange_noop (pushAll s new) f h1.1]
+    exact clearChange_noop _ f (by rw [clearSyntax_change]; exact h1.1)
+  · simp only [he]
+    rfl
+#print axioms open_edited
 
 /-- edit (with syntax errors) then save: settled again, whatever the buffer showed in between -/
 theorem edit_save_cycle (s : St) (f : File) (errs : List Err) (new : EMap) (hs : Settled s) (he : errs ≠ [])
